@@ -20,13 +20,16 @@ def to_map(d, ego):
     return m
 
 
-def inside(d, crit, targets):
-    """critical predicate of an ego-frame description (x/y box per label; unknown-labelled estimates: see C10, avoided here)"""
+def inside(d, crit, targets, is_gt=False):
+    """critical predicate of an ego-frame description (x/y box per label; unknown-labelled estimates: see C10, avoided here);
+    the minimum point count applies to ground truths only"""
     if d["label"] == "false_positive":
         return True
     if d["label"] not in targets:
         return False
     i = targets.index(d["label"])
+    if is_gt and crit.get("min_point_numbers") is not None and d.get("pts", 0) < crit["min_point_numbers"][i]:
+        return False
     return abs(d["x"]) < crit["max_x_position_list"][i] and abs(d["y"]) < crit["max_y_position_list"][i]
 
 
@@ -41,7 +44,7 @@ def check(case):
         return f"evaluation raised {type(ex).__name__}: {ex}"
     pf = fr.pass_fail_result
     tp, fp, tn, fn = pf.tp_object_results, pf.fp_object_results, pf.tn_objects, pf.fn_objects
-    crit_gt = [o for o, d in zip(go, gt_e) if inside(d, crit, targets)]
+    crit_gt = [o for o, d in zip(go, gt_e) if inside(d, crit, targets, is_gt=True)]
     crit_est = [o for o, d in zip(eo, est_e) if inside(d, crit, targets)]
     if len(fr.object_results) != len(tp) + len(fp):
         return f"{len(fr.object_results)} surviving results but TP+FP = {len(tp)}+{len(fp)}"
@@ -94,6 +97,21 @@ def gen(rnd):
             # sometimes the same centre but a quarter turn: centre distance ~0 while the plane distance is large
             g.update(label=e["label"], x=e["x"] + rnd.choice([0.0, 0.1, 0.6, 1.5]) + 0.03 * gi, y=e["y"] + 0.02 * gi,
                      yaw=e.get("yaw", 0.0) + rnd.choice([0.0, 0.0, 1.5707963]))
+    # ground truths carry a lidar point count; the critical filter may demand a minimum (of ground truths only)
+    for g in gt:
+        g["pts"] = rnd.choice([0, 1, 3, 8])
+    for e in est:
+        e["pts"] = None
+    if rnd.random() < 0.4:
+        crit["min_point_numbers"] = [rnd.choice([0, 2, 5])] * n
+    # uuids are optional (None by default) and need not be unique: the accounting is by object, not by id
+    r = rnd.random()
+    if r < 0.25:
+        for g in gt:
+            g["uuid"] = None
+    elif r < 0.4:
+        for g in gt:
+            g["uuid"] = "same"
     task = rnd.choice(["detection", "tracking", "fp_validation"])
     if task == "fp_validation":
         for g in gt:
